@@ -84,9 +84,25 @@ def judge_cond(res, report, selftest=False):
         if "shape" in x:
             shape[x["id"]] = x["shape"]
             st["shapes"] += 1
-            if x.get("or_dummy"):
-                st.setdefault("or_dummy_builds", []).append({"inner_cap_height": x["inner_cap_height"], "built": x["or_dummy"]["built"],
-                                                             "why": (x["or_dummy"].get("panic") or x["or_dummy"].get("err") or "")[:120]})
+            if x["shape"].get("or_dummy_only"):
+                st["shapes"] -= 1
+            if x.get("or_dummy") and not selftest:
+                why = (x["or_dummy"].get("panic") or x["or_dummy"].get("err") or "")[:160]
+                st.setdefault("or_dummy_builds", []).append({"inner_cap_height": x["inner_cap_height"], "built": x["or_dummy"]["built"], "why": why})
+                if not x["or_dummy"]["built"]:
+                    report("violation", "C20/or-dummy/inner-cap-%d" % x["inner_cap_height"],
+                           "conditionally_verify_proof_or_dummy cannot be built for an inner circuit of cap height %d under the standard outer configuration: %s" % (x["inner_cap_height"], why),
+                           {"kind": "or_dummy", "shape_id": x["id"], "observed": x, "expected": "the circuit builds and accepts iff (condition ? the given pair is valid : true)"})
+            continue
+        if "or_dummy_case" in x:
+            if selftest or not x["assignable"]:
+                continue
+            st["or_dummy_cases"] = st.get("or_dummy_cases", 0) + 1
+            want = x["native_given"] if x["cond"] else True      # condition false: the dummy pair is verified instead
+            if x["circuit"] != want:
+                report("violation", "C20/or-dummy/inner-cap-%d/%s/cond%d" % (x["inner_cap_height"], x["or_dummy_case"], x["cond"]),
+                       "conditionally_verify_proof_or_dummy %s although the selected pair is %s" % ("accepts" if x["circuit"] else "rejects", "valid" if want else "invalid"),
+                       {"kind": "or_dummy", "shape_id": x["id"], "observed": x, "expected": {"accept": want}})
             continue
         if x.get("unavailable"):
             st["unavailable"] += 1
@@ -262,6 +278,11 @@ def run(chk, tier):
             cond_rows.append({"id": "c%d_%d" % (si, k), "slot": si, "prog": pick(p1)["prog"], "cfg": STD if si == 0 else pick(strong), "inputs": pick(classes),
                               "pad": pick([2, 20, 60]), "combos": pick_combos(combos, rnd, 4 if thorough else 1), "sample": 2,
                               "selftest": 8 if si == 0 else 0, "probe_or_dummy": True})
+    simple = [p for p in p1 if p["prog"]["instrs"][0]["op"] in ("add", "mul", "sub", "mul_add", "square")]
+    for h in (0, 1, 2, 3, 4):
+        for k in range(4):
+            cond_rows.append({"id": "o%d_%d" % (h, k), "slot": 100 + h, "prog": pick(simple)["prog"], "cfg": dict(STD, cap=h), "inputs": ["rand", "small:16", "rand"],
+                              "pad": 4, "combos": [], "probe_or_dummy": True, "or_dummy_only": True})
     dummy_rows = [{"id": "d%d" % i, "prog": pick(p1)["prog"], "cfg": STD if i % 3 == 0 else pick(strong), "inputs": pick(classes), "pad": pick([0, 3, 30])}
                   for i in range(ndummy)]
     # a chain of three proofs is always part of the replay; two base-case variants (all-zero map / a start value)
@@ -302,6 +323,10 @@ def run(chk, tier):
     chk.extra["conditional"] = {k: (len(v) if isinstance(v, set) else v) for k, v in sc.items()}
     chk.extra["dummy"] = sd
     chk.extra["cyclic"] = {k: (sorted(v) if k == "rejected_after" else len(v) if isinstance(v, set) else v) for k, v in sy.items()}
+    caps_built = {b["inner_cap_height"] for b in sc.get("or_dummy_builds", []) if b["built"]}
+    if not {0, 1, 2, 3, 4} <= caps_built | {int(k.split("-")[-1].split("/")[0]) for k, _, _ in chk.violations if k.startswith("C20/or-dummy/inner-cap-")} or (
+            caps_built and sc.get("or_dummy_cases", 0) < 6 * len(caps_built)):
+        raise ToolError("vacuity (or_dummy): cap heights built %s, cases %s" % (sorted(caps_built), sc.get("or_dummy_cases")))
     if sc["shapes"] < ncond or sc["accept"] < 8 * sc["shapes"] or sc["reject"] < 8 * sc["shapes"] or sc["outer"] < sc["shapes"]:
         raise ToolError("vacuity (conditional): %s" % chk.extra["conditional"])
     if sd["dummy_circuits"] < ndummy // 3 or sd["proofs"] < sd["dummy_circuits"] * 3:
